@@ -176,7 +176,7 @@ def splice_fn(rel, impl_sel, fn_name, opts, contract_lines):
         if body2 != body:
             dropped.append("%s::%s: debug_assert! statements" % (impl_sel, fn_name))
         body = body2
-    for pair in [p for p in opts.get("subst", "").split(";;") if p]:
+    for pair in [p for p in opts.get("subst", "").split("@@") if p]:
         a, b = pair.split("=>", 1)
         if a not in body and a not in sig:
             raise ExtractError("substitution source `%s` not found in %s" % (a, fn_name))
@@ -222,7 +222,7 @@ def splice_item(rel, prefix, opts=None):
         code = "#[derive(%s)]\n%s" % (", ".join(want), code)
         d[0] = "item `%s`: attributes and comments, except derive(%s) kept from the source%s" % (
             prefix, ", ".join(x for x in want if x != "Structural"), " (+ Verus marker Structural)" if "Structural" in want else "")
-    for pair in [p for p in (opts or {}).get("subst", "").split(";;") if p]:
+    for pair in [p for p in (opts or {}).get("subst", "").split("@@") if p]:
         a, b = pair.split("=>", 1)
         if a not in code:
             raise ExtractError("substitution source `%s` not found in item %s" % (a, prefix))
